@@ -167,8 +167,19 @@ def run(ctx):
     for m in [b'{}', b'null', b'[]', b'{"staticPolicies":null}', b'{"staticPolicies":{"a":null}}', b'{"staticPolicies":[]}', b'{"staticPolicies":{"":{}}}',
               b'{"templates":{}}', b'{"staticPolicies":{"a":{"effect":"permit"}}}']:
         add('policyset-json', m)
+    # the typed value decoders (IPAddr, Decimal, Datetime, Duration, EntityUID, Set, Record, Pattern, Decision, EntityMap .UnmarshalJSON,
+    # EntityUID.UnmarshalBinary) called directly: nothing has checked that the bytes are JSON, or that there are any
+    for m in [b'', b' ', b'"', b'""', b'"1.2.3.4"', b'"1.5"', b'"1h"', b'"2024-01-01"', b'{', b'{}', b'[', b'[]', b'null', b'n', b'0', b'-', b'"\\', b'{"__extn"', b'{"__extn":{}}',
+              b'{"__extn":{"fn":"ip","arg":"1.2.3.4"}}', b'{"fn":"decimal","arg":"1.5"}', b'{"__entity":{}}', b'{"__entity":null}', b'{"type":"A","id":"a"}', b'"Wildcard"', b'["Wildcard",{"Literal":"a"}]',
+              b'[{"Literal":null}]', b'"allow"', b'"deny"', b'\xff', b'\x00']:
+        add('typed-value-json', m)
+        for i in range(len(m)):
+            add('typed-value-json', m[:i])
     for j in vjson:
         add('value-json', j)
+        add('typed-value-json', j)
+        for _ in range(max(1, per // 3)):
+            add('typed-value-json', mutate_bytes(r, j, r.choice([1, 2, 4])))
         add('record-json', b'{"k":' + j + b'}')
         tree = json.loads(j)
         for _ in range(per):
@@ -199,7 +210,7 @@ def run(ctx):
     # 2. raw noise
     for _ in range(300 if quick else 5000):
         noise = bytes(r.randrange(256) for _ in range(r.randrange(0, 60)))
-        add(r.choice(['policy-text', 'stream', 'policy-json', 'policyset-json', 'value-json', 'entitymap-json', 'uid-text', 'schema-text', 'schema-json']), noise)
+        add(r.choice(['policy-text', 'stream', 'policy-json', 'policyset-json', 'value-json', 'typed-value-json', 'entitymap-json', 'uid-text', 'schema-text', 'schema-json']), noise)
     # 3. deep nesting / long chains
     deep = 100000 if quick else 1000000
     head = 'permit(principal,action,resource) when { '
@@ -249,7 +260,7 @@ def run(ctx):
     cases = cases[:ndeep0]
     ctx.rule = ('structure-aware mutants (subtree -> null/[]/{}/""/numbers/escape-shaped objects, key deletion/duplication, wrapping) of valid JSON '
                 'of policies, policy sets, values, records, requests, entities, entity maps and schemas rendered by the code itself; byte-level '
-                'mutants (insert/delete/replace/duplicate/truncate) of policy and schema texts and entity uids; raw noise; %d-deep nestings and '
+                'mutants (insert/delete/replace/duplicate/truncate) of policy and schema texts and entity uids; the typed value decoders (IPAddr, Decimal, Datetime, Duration, EntityUID, Set, Record, Pattern, Decision, EntityMap) called directly on empty input, every prefix of their spellings and byte mutants; raw noise; %d-deep nestings and '
                 '%d-long chains of every recursive construct of every text grammar, and 9000-deep JSON. Every accepted value is passed to every '
                 'encoder, the authorizer and (schemas) the resolver/validator. non-trivial = the input was accepted by its decoder' % (deep, deep))
     go = lib.run_go(cases, 'decode', ctx.workdir, timeout_ms=30000, shards=lib.NCPU)
